@@ -31,6 +31,11 @@ class Check(PropertyCheck):
 
     def scenario(self, rng: random.Random, tier) -> Scenario:
         family, jobs = gen.gen_instance(rng, max_jobs=4, max_ops=4 if tier == "quick" else 6)
+        if rng.random() < 0.06:
+            # exact integer arithmetic: durations beyond 2**53 (where floats stop being exact)
+            big = 2 ** rng.choice([53, 54, 60])
+            jobs = [[(ms, d if rng.random() < 0.6 else big + rng.randint(0, 3)) for ms, d in job] for job in jobs]
+            family = "huge"
         f = gen.gen_filter(rng)
         lines = ["new", instance_line(jobs), gen.filter_line(f)]
         kinds = ["makespan_reward", "idle_reward"] + rng.sample(["history", "recorder", "unscheduled"], rng.randint(0, 2))
